@@ -71,3 +71,61 @@ C09S('sqrtmp_zero', 'h_sqrtmp_zero', 'a = 0 refused', 4, 5)
 C09S('sqrtmn', 'h_sqrtmn', 'tmcg_mpz_sqrtmn / _r: root^2 == a mod pq', 4, 5, pairs=True)
 C09S('sqrtmn_all', 'h_sqrtmn_all', 'tmcg_mpz_sqrtmn_all / _r_all: four distinct roots, each squares to a', 4, 5, pairs=True)
 C09S('qrmn_p', 'h_qrmn_p', 'tmcg_mpz_qrmn_p == existence of a square root mod pq', 4, 5, pairs=True)
+
+# ------------------------------------------------------------------ C07 (uniformity as counting)
+H(id='C07_nomodbias', property='C07', src='C07_uniform.cc', entry='h_nomodbias', tu=['mpz_srandom.cc'], unwind=5,
+  replace={'tmcg_mpz_grandom_ui': 'vfstub_grandom_ui'}, defines={'VF_BITS': 15},
+  desc='bounded sampler tmcg_mpz_{ss,s,w}random_mod: accepted raw draws form complete residue blocks (=> exactly uniform residues), result = draw mod m < m',
+  symbolic='modulus m (all 64-bit values >= 2), two raw 64-bit draws, quality level', bounds='full 64-bit width; at most 3 raw draws per call',
+  assumptions=['libgcrypt delivers independent uniform 64-bit words (tmcg_mpz_grandom_ui replaced by a scripted source)'], backend=['cvc5int', 'kissat'], timeout=900)
+H(id='C07_nomodbias_top', property='C07', src='C07_uniform.cc', entry='h_nomodbias_top', tu=['mpz_srandom.cc'], unwind=5,
+  replace={'tmcg_mpz_grandom_ui': 'vfstub_grandom_ui'}, defines={'VF_BITS': 15},
+  desc='bounded sampler: the top element of an accepted draw\'s residue block is accepted and maps to m-1 (directed block completeness)',
+  symbolic='modulus m (all 64-bit values >= 2), raw draw, level', bounds='full 64-bit width',
+  assumptions=['libgcrypt delivers independent uniform 64-bit words (tmcg_mpz_grandom_ui replaced by a scripted source)'], backend=['cvc5int', 'kissat'], timeout=900)
+H(id='C07_nomodbias_bad', property='C07', src='C07_uniform.cc', entry='h_nomodbias_bad', tu=['mpz_srandom.cc'], unwind=5,
+  replace={'tmcg_mpz_grandom_ui': 'vfstub_grandom_ui'}, defines={'VF_BITS': 15},
+  desc='moduli 0 and 1 refused', symbolic='m in {0,1}, level', bounds='-')
+
+# ------------------------------------------------------------------ C02 / C07: permutation generators
+RMOD = {'tmcg_mpz_srandom_mod': 'vfstub_random_mod', 'tmcg_mpz_ssrandom_mod': 'vfstub_random_mod', 'tmcg_mpz_wrandom_mod': 'vfstub_random_mod'}
+for _prop, _e, _n, _d in (('C02', 'h_perm', 'perm', 'random_permutation_fast: result is a bijection'), ('C07', 'h_perm', 'perm_moduli', 'random_permutation_fast: draw i uses modulus n-i'),
+                          ('C07', 'h_perm_injective', 'perm_injective', 'random_permutation_fast: draw vector -> permutation is injective (=> bijective onto S_n => uniform)'),
+                          ('C02', 'h_rotation', 'rotation', 'random_rotation: cyclic shift by exactly the reported offset'), ('C07', 'h_rotation', 'rotation_uniform', 'random_rotation: one draw with modulus n, injective')):
+    H(id='%s_%s' % (_prop, _n), property=_prop, src='C02_perm.cc', entry=_e, tu=['SchindelhauerTMCG.cc'], unwind=10, replace=RMOD, defines={'VF_BITS': 15},
+      desc=_d, symbolic='all draws (each in its requested range)', bounds='n = 2..6 (quick) / 2..9 (thorough), one query per n',
+      assumptions=['bounded sampler replaced by its contract: an arbitrary value in [0, m) for the requested m (the sampler itself is C07_nomodbias)'],
+      slices=[{'H_N': n} for n in range(2, 7)], tiers={'thorough': {'slices': [{'H_N': n} for n in range(2, 10)]}})
+H(id='C02_sts_import', property='C02', src='C02_import.cc', entry='h_sts_import', tu=['VTMF_CardSecret.cc', 'parse_helper.cc', 'mpz_helper.cc'], unwind=12, paths=True, defines={'VF_BITS': 15},
+  desc='TMCG_StackSecret<VTMF_CardSecret>::import accepts exactly the bijective index vectors', symbolic='the whole index vector in {0..9}^n (all 10^n vectors in one query)',
+  bounds='n = 1..4 (quick) / 1..6 (thorough); single-digit indices; card secret text fixed', slices=[{'H_N': n} for n in range(1, 5)], tiers={'thorough': {'slices': [{'H_N': n} for n in range(1, 7)]}})
+
+# ------------------------------------------------------------------ protocol harnesses: common settings
+PROTO_REPLACE = dict(COIN)
+PROTO_REPLACE.update({
+  'operator<<(std::ostream&, __mpz_struct const*)': 'vfstub_mpz_out(std::ostream&, __mpz_struct const*)',
+  'operator>>(std::istream&, __mpz_struct*)': 'vfstub_mpz_in(std::istream&, __mpz_struct*)',
+  'tmcg_mpz_shash(__mpz_struct*, unsigned long, ...)': 'vfstub_shash_va(__mpz_struct*, unsigned long, ...)',
+  'tmcg_mpz_shash(__mpz_struct*, std::string const&)': 'vfstub_shash_str(__mpz_struct*, std::string const&)',
+  'tmcg_mpz_shash_1vec': 'vfstub_shash_1vec', 'tmcg_mpz_shash_2vec': 'vfstub_shash_2vec', 'tmcg_mpz_shash_4vec': 'vfstub_shash_4vec',
+  'tmcg_mpz_shash_2pairvec': 'vfstub_shash_2pairvec', 'tmcg_mpz_shash_2pairvec2vec': 'vfstub_shash_2pairvec2vec', 'tmcg_mpz_shash_4pairvec2vec': 'vfstub_shash_4pairvec2vec'})
+PROTO_ASSUME = ['coin stubs: tmcg_mpz_*random{m,b} return an arbitrary value in their documented range (bounded number of draws)',
+                'hash tmcg_mpz_shash*: memoised nondeterministic function of the argument values, digest width H_DBITS bits (random-oracle idealisation restricted to the calls made)',
+                'mpz stream operators: binary tokens instead of base-62 text (the text operators are checked separately)']
+GROUPS_Q = [dict(H_P=23, H_Q=11, H_G=2, H_K=2), dict(H_P=7, H_Q=3, H_G=2, H_K=2), dict(H_P=13, H_Q=3, H_G=3, H_K=4)]
+GROUPS_T = GROUPS_Q + [dict(H_P=11, H_Q=5, H_G=3, H_K=2), dict(H_P=29, H_Q=7, H_G=7, H_K=4), dict(H_P=31, H_Q=5, H_G=2, H_K=6), dict(H_P=47, H_Q=23, H_G=2, H_K=2)]
+VTMF_TU = ['BarnettSmartVTMF_dlog.cc', 'mpz_spowm.cc']
+def PROTO(prop, name, src, entry, desc, symbolic, tu=VTMF_TU, groups=None, groupsT=None, **kw):
+    d = dict(id='%s_%s' % (prop, name), property=prop, src=src, entry=entry, tu=list(tu), unwind=10, replace=PROTO_REPLACE,
+             defines={'VF_BITS': 15, 'H_MAXDRAWS': 12, 'MINISTL_STREAM_CAP': 512, 'H_DBITS': 4}, config={'TMCG_MAX_FPOWM_T': 8},
+             desc=desc, symbolic=symbolic, assumptions=PROTO_ASSUME, slices=groups or GROUPS_Q,
+             bounds='toy Schnorr groups (p,q,g,k) one query per group: quick %s; thorough adds more; 4-bit digests; TMCG_MAX_FPOWM_T=8' % [tuple(g.values()) for g in (groups or GROUPS_Q)],
+             tiers={'thorough': {'slices': groupsT or GROUPS_T, 'timeout': 3000}})
+    d.update(kw); H(**d)
+for _e, _n, _d, _s in (('h_key_nizk', 'vtmf_key_nizk', 'key-share NIZK: PublishKey -> UpdateKey accepted', 'secret key x_i, commitment coin v, digest'),
+                       ('h_cp', 'vtmf_cp', 'CP_Prove -> CP_Verify accepted (plain exponentiation)', 'alpha, both bases, coin omega, digest'),
+                       ('h_cp_fpowm', 'vtmf_cp_fpowm', 'CP_Prove -> CP_Verify accepted (table-based exponentiation, gg=g, hh=h)', 'key, alpha, coin, digest'),
+                       ('h_masking', 'vtmf_masking', 'VerifiableMaskingProtocol Mask/Prove -> Verify accepted', 'key, message, masking exponent, coins, digest'),
+                       ('h_remasking', 'vtmf_remasking', 'VerifiableRemaskingProtocol Mask/Prove -> Verify accepted', 'key, ciphertext, exponent, coins, digest'),
+                       ('h_decryption', 'vtmf_decryption', 'two players: decryption share Prove -> Verify_Update accepted; Finalize opens to the message', 'both keys, message, all coins, digests')):
+    PROTO('C03', _n, 'C03_vtmf.cc', _e, _d, _s)
